@@ -75,6 +75,17 @@ FileEv ==
   /\ Dirty({E.f})          \* a call on one File says nothing about the others (C09)
 
 (* ------------------------------ monitors (C) ----------------------------- *)
+\* C20 / C08 at the level of tokens: every identifier appended directly to a statement that the observed value reaches
+\* appears in the output, in the order of appending (nothing lost, nothing reordered) - whatever was cloned, added or
+\* appended to other statements in between.  (Reads the recorded calls only, not the model's rendering.)
+OwnIds(c) == LET s == SelectSeq(cells[c].items, LAMBDA it : it.t = "id" /\ it.v # "_") IN [i \in DOMAIN s |-> s[i].v]
+RECURSIVE SubAt(_, _, _, _)
+SubAt(s, i, t, j) == IF i > Len(s) THEN TRUE ELSE IF j > Len(t) THEN FALSE
+                     ELSE IF s[i] = t[j] THEN SubAt(s, i + 1, t, j + 1) ELSE SubAt(s, i, t, j + 1)
+TokensKept(roots, toks) ==
+  \A c \in UNION {Reach(cells, r) : r \in roots} :
+     ~SubAt(OwnIds(c), 1, toks, 1) => Report("C20", "tokens of a statement lost or reordered in the output (system tier)")
+
 Quals(refs, bare) == {<<r.path, r.qual>> : r \in refs} \cup {<<p, "">> : p \in bare}
 MonCommon(f, refs, bare) ==
   /\ (E.status = "panic") => Report("C02", "panic in the system tier")
@@ -112,6 +123,7 @@ RenderEv ==
         /\ MonCommon(f, refs, bare)
         /\ (E.status = "nil") => MonFile(f, specs, refs, bare)
         /\ (clean[f] # "" /\ clean[f] # E.out) => Report("C08", "system: repeat")
+        /\ (E.status = "nil") => TokensKept({files[f].body[i] : i \in DOMAIN files[f].body}, E.toks)
         /\ Resync(f, obsT)
         /\ bound' = [bound EXCEPT ![f] = Bind(@, {<<x.path, x.qual>> : x \in refs}, bare)]
         /\ clean' = [clean EXCEPT ![f] = E.out]
@@ -129,6 +141,7 @@ FragEv ==
         /\ (r[2] # obsT) => Report("DRIFT", "table")
         /\ MonCommon(f, refs, bare)
         /\ (k \in DOMAIN lastfrag /\ lastfrag[k] # E.out) => Report("C08", "system: repeat of a fragment")
+        /\ (E.status = "nil") => TokensKept({c}, E.toks)
         /\ Resync(f, obsT)
         /\ bound' = [bound EXCEPT ![f] = Bind(@, {<<x.path, x.qual>> : x \in refs}, bare)]
         \* the fragment may have registered paths: the next File render may differ, other fragments of this File too
@@ -147,6 +160,7 @@ PlainEv ==
         /\ (E.status # "nil" /\ E.nbytes # 0) => Report("C10", "a failed render wrote to the writer (system tier)")
         /\ (~E.twin) => Report("C14", "Render and RenderWithFile with a fresh File disagree (system tier)")
         /\ (~E.twin2) => Report("C14", "GoString and Render disagree (system tier)")
+        /\ (E.status = "nil") => TokensKept({E.c}, E.toks)
   /\ nops' = nops + 1 /\ UNCHANGED <<cells, files, ntok, obs, bound, hist, clean, lastfrag>>
 
 TNext == FilesEv \/ BuildEv \/ FileEv \/ RenderEv \/ FragEv \/ PlainEv
